@@ -28,7 +28,7 @@ import pandas as pd
 
 warnings.simplefilter('ignore')
 
-CLAUSES = ['remove.rows-and-count', 'add_column.values', 'define_variable.values',
+CLAUSES = ['remove.rows-and-count', 'remove.rows-and-count.duplicate-labels', 'remove.individual-map-current', 'add_column.values', 'define_variable.values',
            'scale_column.one-column', 'panel.map', 'extract_rows.positional', 'count.value',
            'sample_with_replacement.existing-rows', 'sample_individual_map.existing-individuals',
            'split.folds', 'flatten.values', 'harness']
@@ -142,6 +142,15 @@ def num_eq(a, b):
     return a == b or abs(a - b) <= 1e-12 * max(1.0, abs(a), abs(b))
 
 
+def plain(v):
+    """numpy scalar -> plain Python number (ints stay ints when integral)"""
+    try:
+        f = float(v)
+    except (TypeError, ValueError):
+        return v
+    return int(f) if f == int(f) else f
+
+
 def frame_rows(df):
     cols = list(df.columns)
     data = {c: df[c].tolist() for c in cols}
@@ -244,7 +253,9 @@ def apply_op(ctx, db, model, op):
         if not needs <= set(model.cols):
             return db                                   # formula not applicable in this state: skipped
     if kind == 'remove':
-        clause = 'remove.rows-and-count'
+        # two obligations: tables whose index labels are pairwise distinct when remove is called / tables with duplicates
+        labels = [str(r['_label']) for r in model.rows]
+        clause = 'remove.rows-and-count' if len(set(labels)) == len(labels) else 'remove.rows-and-count.duplicate-labels'
         if n == 0:
             expect_raises(ctx, clause, 'remove on an empty table', lambda: db.remove(build()), {'BiogemeError'})
             raise Stop
@@ -386,8 +397,8 @@ def check_individual_map(ctx, db, model, clause, what):
     """individualMap == one [first, last] position range per individual of the CURRENT table"""
     want = model.individual_map()
     im = db.individualMap
-    got = [[im.index[i], int(im.iloc[i, 0]), int(im.iloc[i, 1])] for i in range(len(im))]
-    if sorted(got) != sorted(want):
+    got = [[plain(im.index[i]), plain(im.iloc[i, 0]), plain(im.iloc[i, 1])] for i in range(len(im))]
+    if sorted(map(repr, got)) != sorted(map(repr, [[plain(v) for v in e] for e in want])):
         ctx.fail(clause, f'{what}: individualMap (id, first, last) = {got}; the table implies {want}')
         return False
     return True
@@ -438,10 +449,10 @@ def observe(ctx, db, model, rng):
             except Exception as e:                  # noqa: BLE001
                 ctx.fail(clause, f'sample_individual_map_with_replacement({size}) raised {type(e).__name__}: {e}')
                 continue
-            got = [[s.index[i], int(s.iloc[i, 0]), int(s.iloc[i, 1])] for i in range(len(s))]
+            got = [[plain(s.index[i]), plain(s.iloc[i, 0]), plain(s.iloc[i, 1])] for i in range(len(s))]
             if len(got) != (len(db.individualMap) if size is None else size):
                 ctx.fail(clause, f'sample_individual_map_with_replacement({size}): {len(got)} entries')
-            bad = [e for e in got if e not in want]
+            bad = [e for e in got if e not in [[plain(v) for v in w] for w in want]]
             if bad:
                 ctx.fail(clause, f'sample_individual_map_with_replacement({size}): sampled entry (id, first, last) = {bad[0]} '
                                  f'is not an individual of the current table, which implies {want}')
@@ -579,7 +590,7 @@ def run_case(t, ops, seed):
                 db = apply_op(ctx, db, model, tuple(op))
                 if model.panel is not None and op[0] in ('remove',):
                     # the individual map must describe the table that is left
-                    check_individual_map(ctx, db, model, 'sample_individual_map.existing-individuals',
+                    check_individual_map(ctx, db, model, 'remove.individual-map-current',
                                          f'after {op[0]} on panel data')
         except Stop:
             return ctx.fails
@@ -632,7 +643,7 @@ def main(argv):
     seed = int(argv[1]) if len(argv) > 1 else 0
     rng = np.random.default_rng(seed + 1313)
     # (tables with ALL sequences up to length L, L) ; the remaining catalogue tables get all sequences of length <= 1
-    deep = [0, 3, 2, 9]                 # default index, duplicate labels, permuted + scattered groups, every label twice
+    deep = [0, 3, 2, 9] if tier == 'quick' else [0, 3, 9]     # default index, duplicate labels, (permuted + scattered groups,) every label twice
     if tier == 'quick':
         exh_len, nrand, ntab, nbig = 2, 250, 12, 0
     else:
